@@ -5,7 +5,7 @@ history digests are diffed.  Writes evidence/determinism.json; exit 1 on any mis
 import json, os, subprocess, sys, time
 ROOT = os.path.dirname(os.path.dirname(os.path.abspath(__file__)))
 N = int(sys.argv[1]) if len(sys.argv) > 1 else 2000
-PROPS = ["C05", "C04", "C06", "C09", "C11", "C13", "C14", "C15", "C16", "C17", "C18"]
+PROPS = ["C05", "C01", "C02", "C03", "C07", "C10", "C04", "C06", "C09", "C11", "C13", "C14", "C15", "C16", "C17", "C18"]
 WORKER = r'''
 import sys, json, os
 sys.path.insert(0, %r)
